@@ -439,8 +439,10 @@ def mutate_once(rng, s):
         return " ".join([b, rng.choice(WHO_BAD), m]), "player"
     rows = b.split("/")
     if k == 12:
-        op = rng.randint(0, 5)
+        op = rng.randint(0, 7)
         r = list(rows)
+        if op >= 6:         # a self-consistent board of an illegal size (ranks of the matching width)
+            return " ".join([square_board(rng, rng.choice([1, 2, 9, 9, 10, 11])), w, m]), "square-board-illegal-size"
         if op == 0:
             r = r[:2]
         elif op == 1:
@@ -531,6 +533,39 @@ FIXED_STRINGS = [
 # --------------------------------------------------------------------------
 # correspondence
 # --------------------------------------------------------------------------
+def corpus_texts():
+    """corpus/C13.json: run first (self-consistent boards of illegal sizes, '' and '12' as the side to move, ...)"""
+    import json
+    f = core.VERIF / "corpus" / "C13.json"
+    return list(json.load(open(f))["texts"]) if f.exists() else []
+
+
+def _empty_run_cells(k):
+    out = []
+    while k > 0:
+        c = min(8, k)
+        out.append("x" if c == 1 else "x" + str(c))
+        k -= c
+    return out
+
+
+def square_board(rng, n):
+    """n ranks of width n (self-consistent), for any n: empty runs are spelled with legal tokens only (x8,x for nine)"""
+    rows = []
+    for _ in range(n):
+        cells, left = [], n
+        while left:
+            if rng.random() < 0.5:
+                k = rng.randint(1, left)
+                cells += _empty_run_cells(k)
+                left -= k
+            else:
+                cells.append("".join(rng.choice("12") for _ in range(rng.randint(1, 3))) + rng.choice(["", "", "S", "C"]))
+                left -= 1
+        rows.append(",".join(cells))
+    return "/".join(rows)
+
+
 def _key(kind, text):
     return kind + ":" + hashlib.sha256(text.encode("utf-8", "surrogatepass")).hexdigest()[:10]
 
@@ -658,7 +693,7 @@ def _cases_mut(run, seeds, n_mut):
                     show="fun c => let '(u, t, o) := c in show_res (parse_tps t)", shard=400)
     rng = run.rng
     dist, tags, seen, samples = {"Accept": 0, "IllegalTPS": 0, "Crash": 0, "Unspecified(skipped)": 0}, {}, set(), []
-    items = [(s, "fixed") for s in FIXED_STRINGS]
+    items = [(s, "corpus") for s in corpus_texts()] + [(s, "fixed") for s in FIXED_STRINGS]
     for _ in range(n_mut):
         items.append(mutated(rng, rng.choice(seeds)))
     # the interpreter-limit class, with a well-formed and an ill-formed board.  The long digit runs are emitted as
@@ -704,7 +739,7 @@ def _cases_mut(run, seeds, n_mut):
                {"key": key, "kind": "mut", "mutation": tag, "text": s if len(s) < 300 else s[:120] + f"...({len(s)} chars)",
                 "text_codepoints": [ord(c) for c in s] if len(s) < 6000 else None, "expect_unspecified": u, "impl": j_obs(o)})
         seen.add(key)
-        if len(samples) < 3 and tag not in ("fixed",) and o[0] == "ill":
+        if len(samples) < 3 and tag not in ("fixed", "corpus") and o[0] == "ill":
             samples.append({"text": s[:120], "mutation": tag, "impl": "IllegalTPS"})
     dist["lenient (leading zeros / x1), compared exactly"] = lenient
     dist["well-formed but not canonical (meaning only, no write-back demanded)"] = noncanon
@@ -949,7 +984,7 @@ def _search(run, broken):
     if not found and len(over) < 5:
         seeds = [indep_write(p.size, board_of(p), p.ply) for p, _ in positions] + [grammar_canonical(run.rng) for _ in range(300)]
         short = [t for t in seeds if len(t) < 160] or ["x3/x3/x3 1 1"]
-        stream = list(FIXED_STRINGS) + seeds + [mutated(run.rng, run.rng.choice(short))[0] for _ in range(20000)]
+        stream = corpus_texts() + list(FIXED_STRINGS) + [" ".join([square_board(run.rng, n), "1", "1"]) for n in (9, 10, 2, 1, 9, 10, 11) for _ in range(6)] + seeds + [mutated(run.rng, run.rng.choice(short))[0] for _ in range(20000)]
         stream += ["x3/x3/x3 1 " + "1" * (MAXD + 1), "x3/x3/xa 2 " + "9" * (MAXD + 7), "x3/x3/x3 1 " + "0" * MAXD + "1",
                    "x3/x3/x3 1 " + "1" * MAXD, "x3/x3/x3 3 " + "1" * (MAXD + 1)]
         for s in stream:
